@@ -11,8 +11,12 @@ import os
 import re
 import shutil
 import vlib
+import importlib.util as _ilu
 
 HERE = os.path.dirname(os.path.abspath(__file__))
+_cs = _ilu.spec_from_file_location("c04_crosscheck", os.path.join(HERE, "crosscheck.py"))
+crosscheck = _ilu.module_from_spec(_cs)
+_cs.loader.exec_module(crosscheck)
 ALLOCATING = ("New", "NodeAddInterface", "Clone")
 
 
@@ -100,15 +104,50 @@ RULES = {
 }
 
 
+def vm_cross_check(ctx, low, trace, summ):
+    """DESIGN 3.3: a sample of the histories, with the observed result classes and states, replayed on
+    step2 inside Coq by vm_compute (no extraction, no OCaml); a tampered copy must be rejected."""
+    import time
+    n = summ.get("cases", 0)
+    gen = min(n, 9000)
+    rng = vlib.SplitMix64(ctx.seed)
+    ids = sorted({1 + (i * gen) // 48 for i in range(48)} | {1 + rng.below(gen) for _ in range(8)} | set(range(1000001, 1000007)))
+    v = os.path.join(ctx.scratch, "c04_cases.v")
+    bad = os.path.join(ctx.scratch, "c04_cases_tampered.v")
+    t0 = time.time()
+    try:
+        nh, nc, nr, ns, _ = crosscheck.generate(trace, v, ids)
+        _, _, _, _, tampered = crosscheck.generate(trace, bad, ids[:3], tamper=True)
+    except Exception as e:          # the trace does not have the documented form
+        ctx.violation(low + "-vm-cross-check", "the trace could not be translated into Coq terms: %r" % (e,), {"error": repr(e)}, found_input=False)
+        return
+    cmd = ["coqc", "-R", vlib.COQ, "Acme", "-w", "-notation-overridden,-deprecated-hint-without-locality,-deprecated-instance-without-locality,-ambiguous-paths"]
+    rc, log = vlib.sh(cmd + [v], cwd=ctx.scratch, timeout=1500)
+    rcb, logb = vlib.sh(cmd + [bad], cwd=ctx.scratch, timeout=600)
+    ctx.coverage["vm_cross_check"] = {"histories": nh, "calls": nc, "results_compared": nr, "states_compared": ns,
+                                      "seconds": round(time.time() - t0, 1), "ok": rc == 0,
+                                      "tampered_copy_rejected": bool(tampered and rcb != 0 and "Unable to unify" in logb)}
+    if nh < 40 or ns < 200:
+        ctx.violation(low + "-vm-cross-check", "the in-Coq cross-check embedded too little (%d histories, %d states)" % (nh, ns), {}, found_input=False)
+    if rc != 0:
+        m = re.search(r'File "[^"]*", line (\d+)', log)
+        ctx.violation(low + "-vm-cross-check", "replaying the sampled histories on step2 inside Coq (vm_compute) disagrees with what the harness "
+                      "observed on the implementation, although the extracted model agreed: %s" % log[-700:],
+                      {"file": v, "coqc_output": log[-3000:]}, found_input=False)
+    if not tampered or rcb == 0 or "Unable to unify" not in logb:
+        ctx.violation(low + "-vm-cross-check-cannot-fail", "a copy of the cases with one observed field changed was not rejected by coqc "
+                      "(tampered=%s rc=%s): %s" % (tampered, rcb, logb[-400:]), {"file": bad}, found_input=False)
+
+
 def run_property(ctx, pid):
     ctx.level = "proof"
     # floor for a non-replay run: about 70 % of the histories of the quick tier
     ctx.min_evaluations = 300
     low = pid.lower()
-    status = vlib.proof_status(pid, extra_targets=["C04/Extract.v"])
+    status = vlib.proof_status(pid, extra_targets=["C04/Extract.v", "C04/CrossCheck.v"])
     if any("No rule to make target" in p for p in status["problems"]):
         # another stream removed a scratch .v file between coq_makefile and make: build again
-        status = vlib.proof_status(pid, extra_targets=["C04/Extract.v"])
+        status = vlib.proof_status(pid, extra_targets=["C04/Extract.v", "C04/CrossCheck.v"])
     ctx.proof_gate(status)
     drv = vlib.build_ocaml_driver("c04_driver", os.path.join(vlib.COQ, "extracted"),
                                   os.path.join(HERE, "driver", "c04_driver.ml"), only=["c04_model"])
@@ -229,6 +268,8 @@ def run_property(ctx, pid):
         "pushes in map order); such calls are not generated here, the C01/C07 checks exercise the zone (a replayed history that contains one is signed +two-signals-of-the-enum-in-one-layout)",
         "refusals decided by payload geometry (SignalSizeError / StartBitError / ValueIndexError) are taken from the implementation as an oracle bit; they are the subject of C01/C07",
     ]
+    if ctx.tier == "thorough" and not ctx.replay and mism == 0:
+        vm_cross_check(ctx, low, out, summ)
     if ctx.tier == "thorough":
         ok, chk = vlib.coqchk(pid)
         ctx.coverage["coqchk"] = "ok" if ok else "FAILED"
